@@ -15,6 +15,7 @@ import SfntV.Proofs.CffEncodingRt
 import SfntV.Proofs.CffWrite
 import SfntV.Proofs.CffFontRt
 import SfntV.Proofs.CffFontRtCid
+import SfntV.Proofs.CffConverge
 import SfntV.Generated.Cff
 
 namespace SfntV.Props.C13
@@ -320,7 +321,7 @@ theorem C13_layout_consistent (std : List String) (f : FontIn) (file : Bytes) (p
     obtain ⟨fx, sc⟩ := v
     rw [hp] at h
     simp only at h
-    cases hl : writeLoop (mkBlobs std f.ros.isSome fx sc) sc.num 64 (cumsum (initialBlobs fx)) 0 with
+    cases hl : writeLoop (mkBlobs std f.ros.isSome fx sc) sc.num (writeFuel std f.ros.isSome fx sc) (cumsum (initialBlobs fx)) 0 with
     | none => rw [hl] at h; cases h
     | some r =>
       obtain ⟨blobs, offs, k⟩ := r
@@ -672,5 +673,65 @@ example : readFont tinyTables
      19, 248, 136, 20, 140, 12, 14, 0, 0]
       = .ok (nfCid tinyCid "Adobe" "Identity" 0) :=
   C13_font_roundtrip_cid tinyTables tinyCid "Adobe" "Identity" 0 tinyCid_dom _ 2 (by decide +kernel) (by decide)
+
+/-! ### the offset fixed point of `Write` settles -/
+
+/-- `C13_write_converges`.  The loop `for { …; if done { break } }` of `(*Font).Write` has no bound in
+the Go code; the model runs it with fuel `writeFuel` (a function of the font).  For EVERY font
+(no domain restriction) for which the part of `Write` before the loop succeeded (`prepare`) and whose
+Top DICT, string INDEX and FDArray fit an INDEX with five-byte offset operands (`hfit`; otherwise the Go
+code panics in `cffIndex.encode`), the loop reaches its fixed point: the model returns a file, and
+the number of passes `k` is at most the distance between the position of the last section when
+every offset operand has its longest form and its position after the first pass, plus two (18 for
+the two-glyph simple font below, 34 for the CID-keyed example with two FDs; the operands are the only
+thing that can grow, by at most four bytes each, plus the offSize bytes of two INDEXes).
+Reason (Proofs/CffConverge.lean): section sizes depend on the offsets only through the encoded
+lengths of the offset operands (Top DICT: charset, Encoding, CharStrings, FDSelect, FDArray, Private
+size and offset; every Font DICT: Private size and offset; every Private DICT: Subrs, a difference
+of two offsets) and through the offSize of two INDEXes, all monotone (`lenI_mono`,
+`encodeDictS_le`, `index_le`); offsets and their differences are sums of section sizes; so
+every pass is pointwise at least the previous one (`mkBlobs_le`), and a pass that is not the
+last moves the last section by at least one byte (`grows_of_not_same`). -/
+theorem C13_write_converges (std : List String) (f : FontIn) (fx : Fixed) (sc : Secs)
+    (hprep : prepare std f = .ok (fx, sc))
+    (hfit : mkBlobsFits std f.ros.isSome fx sc (bigOffs sc.num) = true) :
+    ∃ file k, writeFont std f = .ok (file, k) ∧
+      k + secPos (mkBlobs std f.ros.isSome fx sc (cumsum (initialBlobs fx))) (sc.num - 1)
+        ≤ secPos (mkBlobs std f.ros.isSome fx sc (bigOffs sc.num)) (sc.num - 1) + 2 :=
+  writeFont_ok std f fx sc hprep hfit
+
+/-- `C13_font_roundtrip` without the hypothesis "Write returned a file": for a font in the domain
+whose custom encoding vector (if any) is accepted by `encodeEncoding` (`henc`: it refuses more than
+255 ranges; trivially true for the Standard and Expert encodings and for CID-keyed fonts) and
+whose INDEXes fit (`hfit`, see `writeFits`), the model of `Write` returns a file, and if that file
+is shorter than 2 GiB the model of `Read` delivers the normal form. -/
+theorem C13_font_roundtrip_total (T : Tables) (f : FontIn) (hd : InDomain T f)
+    (henc : f.ros = none → ∃ r, encPlan T.std.toList f = .ok r)
+    (hfit : writeFits T.std.toList f = true) :
+    ∃ file passes, writeFont T.std.toList f = .ok (file, passes) ∧
+      (file.length < 2147483648 → readFont T file = .ok (nf T f)) := by
+  have hprep : ∃ fx sc, prepare T.std.toList f = .ok (fx, sc) := by
+    rcases hd with ⟨p, hd'⟩ | ⟨r, o, sup, hd'⟩
+    · exact simple_prepare_ok _ f p hd' (henc hd'.ros)
+    · exact cid_prepare_ok _ f r o sup hd'
+  obtain ⟨fx, sc, hprep⟩ := hprep
+  obtain ⟨file, k, hw⟩ := writeFont_ok' _ f fx sc hprep hfit
+  exact ⟨file, k, hw, fun hsize => C13_font_roundtrip T f hd file k hw hsize⟩
+
+-- non-vacuity: the three example fonts satisfy every hypothesis of `C13_font_roundtrip_total`
+example : ∃ file passes, writeFont [".notdef"] tinyFont = .ok (file, passes) ∧
+    (file.length < 2147483648 → readFont tinyTables file = .ok (nf tinyTables tinyFont)) :=
+  C13_font_roundtrip_total tinyTables tinyFont (Or.inl ⟨tinyPriv, tinyFont_dom⟩)
+    (fun _ => ⟨_, rfl⟩) (by decide +kernel)
+
+example : ∃ file passes, writeFont [".notdef"] tinyFontC = .ok (file, passes) ∧
+    (file.length < 2147483648 → readFont tinyTables file = .ok (nf tinyTables tinyFontC)) :=
+  C13_font_roundtrip_total tinyTables tinyFontC (Or.inl ⟨tinyPriv, tinyFontC_dom⟩)
+    (fun _ => ⟨(some [0, 1, 65], false), by decide +kernel⟩) (by decide +kernel)
+
+example : ∃ file passes, writeFont [".notdef"] tinyCid = .ok (file, passes) ∧
+    (file.length < 2147483648 → readFont tinyTables file = .ok (nf tinyTables tinyCid)) :=
+  C13_font_roundtrip_total tinyTables tinyCid (Or.inr ⟨"Adobe", "Identity", 0, tinyCid_dom⟩)
+    (fun h => by cases h) (by decide +kernel)
 
 end SfntV.Props.C13
